@@ -1,13 +1,13 @@
 CONSTANTS
   Family = "layouts"
-  Blocks = {30000}
+  Blocks = {8, 16}
   I = 2
   Waits = {1, 2, 3}
   MaxOps = 0
-  MaxChunks = 2
+  MaxChunks = 3
   Kinds = {"rot", "flush"}
-  Windows = "chunks"
-  MaxFaults = 0
+  Windows = "all"
+  MaxFaults = 1
   MaxSyncFaults = 0
   AdvanceOnFailure = FALSE
   ExactMax = 100
